@@ -365,7 +365,15 @@ func (s *Store) CopyTo(dstFile StoreFile, flushEvery int) (res *Store, err error
 		numItems := 0
 		var errCopyItem error
 		err = srcColl.VisitItemsAscendEx(minItem.Key, true, func(i *Item, depth uint64) bool {
-			if errCopyItem = dstColl.SetItem(i); errCopyItem != nil {
+			// The destination store takes no references through the source's
+			// callbacks, and the source releases i as soon as it evicts it: give
+			// the destination an item of its own.
+			dstItem := &Item{
+				Key:      append([]byte(nil), i.Key...),
+				Val:      append([]byte{}, i.Val...),
+				Priority: i.Priority,
+			}
+			if errCopyItem = dstColl.SetItem(dstItem); errCopyItem != nil {
 				return false
 			}
 			numItems++
